@@ -1,3 +1,120 @@
+//! `sim` — entry point of the simulation engines. Invoked by /verif/check.
+
+mod common;
+mod e2;
+mod linemodel;
+
+use common::*;
+
+fn usage() -> ! {
+    eprintln!("usage: sim check <PROP> [--tier quick|thorough] [--runs N] [--jobs J] [--seed S] [--no-evidence]\n       sim replay <file> [--quiet]\n       sim selftest [--seeds N]");
+    std::process::exit(2);
+}
+
+struct Plan {
+    engine: &'static str,
+    quick_runs: u64,
+    thorough_runs: u64,
+    sweep_every: u64,
+    note: &'static str,
+}
+
+fn plan_for(prop: &str) -> Option<Plan> {
+    Some(match prop {
+        "C05" | "C06" | "C19" => Plan { engine: "linebuf", quick_runs: 500_000, thorough_runs: 40_000_000, sweep_every: 25, note: "underlying writes are all-or-nothing (datagram semantics); short writes are not injected; sockets are stubs" },
+        "C07" => Plan { engine: "linebuf", quick_runs: 300_000, thorough_runs: 30_000_000, sweep_every: 1, note: "underlying writes are all-or-nothing (datagram semantics); short writes are not injected; sockets are stubs" },
+        _ => return None,
+    })
+}
+
 fn main() {
-    println!("sim");
+    cadence_dsim::kernel::install_quiet_panic_hook();
+    let args: Vec<String> = std::env::args().skip(1).collect();
+    if args.is_empty() {
+        usage();
+    }
+    let get = |flag: &str| -> Option<String> { args.iter().position(|a| a == flag).and_then(|i| args.get(i + 1).cloned()) };
+    let has = |flag: &str| args.iter().any(|a| a == flag);
+    let code = match args[0].as_str() {
+        "check" => {
+            let prop = args.get(1).cloned().unwrap_or_else(|| usage());
+            let tier = match get("--tier").or_else(|| std::env::var("VERIF_TIER").ok()).as_deref() {
+                Some("thorough") => Tier::Thorough,
+                _ => Tier::Quick,
+            };
+            let seed = get("--seed")
+                .or_else(|| std::env::var("VERIF_SEED").ok())
+                .and_then(|s| s.parse::<u64>().ok())
+                .unwrap_or(DEFAULT_SEED);
+            let plan = match plan_for(&prop) {
+                Some(p) => p,
+                None => {
+                    eprintln!("HARNESS-ERROR: no check registered for property {prop}");
+                    std::process::exit(2);
+                }
+            };
+            let runs = get("--runs").and_then(|s| s.parse().ok()).unwrap_or(if tier == Tier::Quick { plan.quick_runs } else { plan.thorough_runs });
+            let jobs = get("--jobs").and_then(|s| s.parse().ok()).unwrap_or_else(|| std::thread::available_parallelism().map(|n| n.get()).unwrap_or(4));
+            let ba = BatchArgs {
+                prop: prop.clone(),
+                tier,
+                seed,
+                runs,
+                jobs,
+                sweep_every: plan.sweep_every,
+                level_note: plan.note.to_string(),
+                write_evidence: !has("--no-evidence"),
+                max_wall_s: get("--max-wall").and_then(|s| s.parse().ok()).unwrap_or(if tier == Tier::Quick { 120 } else { 3300 }),
+            };
+            match plan.engine {
+                "linebuf" => run_batch::<e2::E2>(&ba),
+                _ => 2,
+            }
+        }
+        "replay" => {
+            let file = args.get(1).cloned().unwrap_or_else(|| usage());
+            let s = match std::fs::read_to_string(&file) {
+                Ok(s) => s,
+                Err(e) => {
+                    eprintln!("HARNESS-ERROR: cannot read {file}: {e}");
+                    std::process::exit(2);
+                }
+            };
+            let rf: ReplayFile = match serde_json::from_str(&s) {
+                Ok(r) => r,
+                Err(e) => {
+                    eprintln!("HARNESS-ERROR: cannot parse {file}: {e}");
+                    std::process::exit(2);
+                }
+            };
+            let quiet = has("--quiet");
+            match rf.engine.as_str() {
+                "linebuf" => replay::<e2::E2>(&rf, quiet),
+                other => {
+                    eprintln!("HARNESS-ERROR: unknown engine {other}");
+                    2
+                }
+            }
+        }
+        "selftest" => {
+            let seeds = get("--seeds").and_then(|s| s.parse().ok()).unwrap_or(500);
+            let mut bad = 0;
+            for (name, r) in [("linebuf/C07", selftest::<e2::E2>("C07", seeds, 16, DEFAULT_SEED))] {
+                match r {
+                    Ok(n) => println!("selftest {name}: {n} seeds x 2 executions identical"),
+                    Err(e) => {
+                        println!("selftest {name}: NONDETERMINISM {e}");
+                        bad += 1;
+                    }
+                }
+            }
+            if bad > 0 {
+                2
+            } else {
+                0
+            }
+        }
+        _ => usage(),
+    };
+    std::process::exit(code);
 }
